@@ -831,3 +831,97 @@ def sd_transform(ctx):
                '(%s): errors and their standard deviations are mapped to output coordinates with '
                'different matrices' % (args, '; '.join(
                    '%s%s' % (a, (' via ' + '/'.join(v)) if v else '') for a, v, _ in found)))
+
+
+# ----------------------------------------------------------------------- FF-COMP
+def ff_comp(ctx):
+    ctx.rule('FF-COMP', 'feedforward result: compensated trajectory = computed trajectory minus the '
+             'estimated output-space error (lat, lon through the radii of principal_radii at the '
+             'nominal point and RAD_TO_DEG, alt = alt + down error, velocity and attitude '
+             'component-wise)')
+    from ..expr import SymEval, SArray, Rec, Obj, Opaque, Unsupported
+    from ..nf import Alg, Rat
+    repo = ctx.repo
+    f = repo.function('filters._compute_feedforward_result')
+    ctx.touch(f)
+    A = Alg()
+    err_cols = list(repo.const('util.TRAJECTORY_ERROR_COLS'))
+    traj_cols = list(repo.const('util.TRAJECTORY_COLS'))
+
+    class H:
+        def call(self, ev, q, node, args, kwargs, env):
+            if q == 'pandas.DataFrame':
+                cols = kwargs.get('columns')
+                if isinstance(cols, (list, tuple)) and list(cols) == err_cols and \
+                        not hasattr(self, 'err'):
+                    self.err = Rec({c: A.sym('err_' + c) for c in cols}, 'frame')
+                    return self.err
+                return Opaque('frame')
+            if q == 'pyins.util.mv_prod' or q == 'pyins.util.mm_prod_symmetric':
+                return Opaque('prod')
+            if q == 'numpy.diagonal':
+                return Opaque('diag')
+            return NotImplemented
+
+        def attr(self, ev, base, a, node):
+            if isinstance(base, Obj) and a in ('n_states', 'states'):
+                return Opaque(a)
+            if isinstance(base, Opaque):
+                return Opaque('attr')
+            return None
+
+        def subscript(self, ev, base, idx, node, env):
+            if isinstance(base, Opaque):
+                return Opaque('sub')
+            return None
+    h = H()
+    ev = SymEval(repo, A, hooks=h)
+    nom = Rec({c: A.sym(c + '_nom') for c in traj_cols}, 'frame')
+    com = Rec({c: A.sym(c) for c in traj_cols}, 'frame')
+    emc = repo.klass('error_model.InsErrorModel')
+    em = Obj(emc)
+    em.attrs['n_states'] = 9
+    gm, am = Obj(repo.klass('inertial_sensor.EstimationModel')), \
+        Obj(repo.klass('inertial_sensor.EstimationModel'))
+    for o_ in (gm, am):
+        o_.attrs['n_states'] = 3
+        o_.attrs['states'] = ['s0', 's1', 's2']
+
+    class _EmHook(H):
+        pass
+    try:
+        # the error model's own methods are not needed here: transform_to_output is opaque
+        class H2(H):
+            def call(self, ev_, q, node, args, kwargs, env):
+                if isinstance(node.func, ast.Attribute) and node.func.attr == 'transform_to_output':
+                    return Opaque('T')
+                return H.call(self, ev_, q, node, args, kwargs, env)
+        h = H2()
+        ev.hooks = h
+        out = ev.call_function(f, [Opaque('x'), Opaque('P'), nom, com, em, gm, am])
+    except Unsupported as e:
+        raise AnalysisError('_compute_feedforward_result not analysable: %s' % e)
+    ctx.need(isinstance(out, tuple) and out and isinstance(out[0], Rec),
+             '_compute_feedforward_result: first result is not the compensated trajectory')
+    ctx.need(hasattr(h, 'err'), '_compute_feedforward_result: error table not found')
+    res = out[0]
+    ev2 = SymEval(repo, A)
+    rn, re, rp = ev2.call_function(repo.function('earth.principal_radii'),
+                                   [A.sym('lat_nom'), A.sym('alt_nom')])
+    r2d = A.sym(A.R2D)
+    e = lambda c: A.sym('err_' + c)
+    want = {'lat': A.sub(A.sym('lat'), A.div(A.mul(r2d, e('north')), rn)),
+            'lon': A.sub(A.sym('lon'), A.div(A.mul(r2d, e('east')), rp)),
+            'alt': A.add(A.sym('alt'), e('down'))}
+    for c in traj_cols[3:]:
+        want[c] = A.sub(A.sym(c), e(c))
+    for c in traj_cols:
+        got = res.cols.get(c)
+        ok = isinstance(got, Rat) and A.eq(got, want[c])
+        ctx.ob('FF-COMP', ok, None, "compensated '%s' = computed - error" % c, f=f, key='comp-' + c,
+               why="the compensated '%s' is not the computed value minus its estimated error "
+                   "(sign, radius of principal_radii at the nominal point, or RAD_TO_DEG)" % c)
+    # the caller's tables are not modified (the update works on a copy)
+    ok = all(isinstance(com.cols[c], Rat) and A.eq(com.cols[c], A.sym(c)) for c in traj_cols)
+    ctx.ob('FF-COMP', ok, None, 'the computed trajectory passed in is left untouched', f=f,
+           key='copy', why='_compute_feedforward_result modifies the trajectory table it was given')
